@@ -24,11 +24,53 @@ def ref(self, amount):
 NOINLINE = ("outlay", "transact", "update", "commission")
 
 
-def settings_reach_every_node(chk):
+def settings_reach_every_node(chk, pid="C05"):
     """whole-unit vs fractional sizing is decided by a flag that must reach every security of the tree"""
     from . import tree_rules
-    core_rules.recursion_rules(chk, "C05", [("Node", "use_integer_positions", "integer_positions", False)])
-    tree_rules.settings_pushed_at_construction(chk, "C05")
+    core_rules.recursion_rules(chk, pid, [("Node", "use_integer_positions", "integer_positions", False)])
+    tree_rules.settings_pushed_at_construction(chk, pid)
+    tree_rules.add_children_rules(chk, "C05")  # a node attached later (lazily created children included) takes the mode of the node it is attached to
+    tree_rules.lazy_child_rules(chk, pid)
+
+
+def loop_step(chk):
+    """the step of the budget search: the shortfall is converted into units at the cash value of ONE unit (price x multiplier)"""
+    R = Roles(chk.prog)
+    fi = chk.prog.func(CORE, "SecurityBase", "allocate")
+    S = chk.summary(CORE, "SecurityBase", "allocate", host="SecurityBase", no_inline=NOINLINE)
+    host = "SecurityBase.allocate"
+    amount = ("param", "amount")
+    tr = [e for e in S.calls("transact") if e.recv == SELF]
+    chk.need(tr and S.while_loops, "%s no longer sizes the trade in a loop and trades through self.transact" % host)
+    loop = S.while_loops[0]
+    a0 = tr[-1].args[0] if tr[-1].args else None
+    wl = [n for n in sym.walk(a0) if n[0] == "wlout"] if a0 is not None else []
+    chk.need(bool(wl), "%s: the traded quantity is not the sizing loop's result" % host)
+    qname = wl[0][1]
+    q_new = loop.body_state.locals.get(qname)
+    fo_name = None
+    for a, p in sym.literals(loop.test, True):
+        if a[0] == "call" and a[1] in ("np.isclose", "math.isclose") and a[2] and a[2][0][0] == "wl":
+            fo_name = a[2][0][1]
+    if q_new is None or fo_name is None:
+        chk.ob("C05.R5", False, CORE, host, "loop-step", "the budget search steps the quantity by the shortfall in units", where=fi.where, found="no carried quantity / cost in the loop")
+        return
+    qw, fw = ("wl", qname, loop.lid), ("wl", fo_name, loop.lid)
+    step = ("-", qw, ("/", ("-", fw, amount), ("*", fld(SELF, R.SPRICE), fld(SELF, "multiplier"))))
+    vf = sym.restrict(q_new, sym.sat([(fld(SELF, "integer_positions"), False)]))
+    # another carried name that holds the shortfall (cost - amount) before the loop and at the end of every pass stands for it
+    body_l, fo_pre, fo_new = loop.body_state.locals, loop.pre.get(fo_name), loop.body_state.locals.get(fo_name)
+    for x_, pre_ in list(loop.pre.items()):
+        if x_ in (qname, fo_name) or fo_pre is None or fo_new is None or x_ not in body_l:
+            continue
+        try:
+            if sym.equal(pre_, ("-", fo_pre, amount)) and sym.equal(body_l[x_], ("-", fo_new, amount)):
+                vf = sym.substitute(vf, {("wl", x_, loop.lid): ("-", fw, amount)})
+        except Exception:
+            pass
+    ok = sym.equal(core_rules._strip_all_versions(vf), core_rules._strip_all_versions(step))  # the price is whatever the refresh at entry left
+    chk.ob("C05.R5", ok, CORE, host, "loop-step", "each step moves the quantity by the shortfall divided by the cash value of one unit (price x multiplier): any other divisor overshoots "
+           "and ends in the divergence error on well-formed input", where=fi.where, expected=short(step, 200), found=short(vf, 200), sample={"step": short(vf, 160)})
 
 
 def run(chk):
@@ -177,6 +219,7 @@ def run(chk):
         vi = sym.restrict(q_new, sym.sat([(fld(SELF, "integer_positions"), True)]))
         ok = vi[0] == "call" and vi[1] in ("math.floor", "math.ceil")
         chk.ob("C05.R4", ok, CORE, host, "loop-quantity-integral", "with whole-unit positions every candidate quantity is a whole number", where=fi.where, found=short(vi, 120))
+    loop_step(chk)
     # ---- the traded quantity is the loop's result; update flag passed on
     t = tr[-1]
     tb = bound_args(t, chk.prog)
